@@ -940,6 +940,24 @@ fn check_with<C: Context>(case: &Case, rec: &mut Rec) -> CaseResult {
     Ok(())
 }
 
+/// Run `f` on a thread of its own (16 MB stack, like the shard workers): whatever the library
+/// keeps per thread starts from scratch, so a history is a pure function of its data and earlier
+/// cases on a (reused) worker thread can neither hide nor fake an effect. (Used by section
+/// 'histories' only: a thread per case costs too much for the sections with 10^5 cases.)
+fn isolated<T: Send>(f: impl FnOnce() -> T + Send) -> Result<T, Failure> {
+    std::thread::scope(|s| {
+        let h = std::thread::Builder::new().name("case".into()).stack_size(16 << 20).spawn_scoped(s, || vcore::guard::guard(f));
+        match h {
+            Err(e) => Err(Failure { key: "harness-cannot-spawn-thread".into(), msg: format!("{e}") }),
+            Ok(h) => match h.join() {
+                Ok(Ok(v)) => Ok(v),
+                Ok(Err(p)) => Err(Failure { key: format!("harness-panic@{}", p.sig()), msg: format!("panic in the case thread: {} at {}:{}", p.msg, p.file, p.line) }),
+                Err(_) => Err(Failure { key: "harness-panic@thread".into(), msg: "case thread died".into() }),
+            },
+        }
+    })
+}
+
 fn check(case: &Case, rec: &mut Rec) -> CaseResult {
     match case.ctx {
         0 => check_with::<Minimal>(case, rec),
@@ -1558,6 +1576,10 @@ fn sim_cost(lib: &BTreeMap<String, Vec<Step>>, steps: &[Step], level: usize, cos
 }
 
 fn build_graph(raw: &RawG) -> GCase {
+    build_graph_with(raw, 20_000)
+}
+
+fn build_graph_with(raw: &RawG, limit: usize) -> GCase {
     let n = raw.n.max(raw.cycle);
     let mut lib: Vec<Macro> = (0..n).map(|i| Macro { name: format!("g:n{i}"), body: raw.bodies[i].iter().map(|r| g_step(r, n)).collect() }).collect();
     for i in 0..raw.cycle {
@@ -1578,8 +1600,8 @@ fn build_graph(raw: &RawG) -> GCase {
         let map: BTreeMap<String, Vec<Step>> = lib.iter().map(|m| (m.name.clone(), m.body.clone())).collect();
         let mut cost = 0usize;
         let start = if top.len() == 1 { 2 } else { 0 };
-        sim_cost(&map, &top, start, &mut cost, 20_000);
-        if cost <= 20_000 {
+        sim_cost(&map, &top, start, &mut cost, limit);
+        if cost <= limit {
             break;
         }
         for m in lib.iter_mut() {
@@ -1690,6 +1712,170 @@ fn check_graph(g: &GCase, rec: &mut Rec) -> CaseResult {
     }
 }
 
+// ---- histories: the meaning of an invocation does not depend on earlier instantiations ------
+
+/// One step of a history: (optionally start a brand-new context,) register `lib`, instantiate
+/// `top` `repeat` times.
+#[derive(Clone, Debug, Serialize, Deserialize)]
+struct HItem {
+    new_ctx: bool,
+    lib: Vec<Macro>,
+    top: Vec<Step>,
+    repeat: u8,
+}
+
+#[derive(Clone, Debug, Serialize, Deserialize)]
+struct HCase {
+    ctx: u8,
+    items: Vec<HItem>,
+}
+
+/// What can be observed of one instantiation: Ok + behaviour in both directions, Err, or panic
+#[derive(Clone, Debug)]
+struct Obs {
+    status: String,
+    detail: String,
+    data: Vec<Coor4D>,
+}
+
+fn observe<C: Context>(ctx: &mut C, text: &str) -> Obs {
+    match instantiate(ctx, text) {
+        Outcome::Panic(p) => Obs { status: "panic".into(), detail: format!("{} at {}:{}", p.msg, p.file, p.line), data: vec![] },
+        Outcome::Err(e) => Obs { status: "Err".into(), detail: e, data: vec![] },
+        Outcome::Ok(h) => {
+            let (sf, mut df) = behave(&*ctx, h, true);
+            let (si, di) = behave(&*ctx, h, false);
+            df.extend(di);
+            Obs { status: "Ok".into(), detail: format!("fwd {sf}, inv {si}"), data: df }
+        }
+    }
+}
+
+fn same_obs(a: &Obs, b: &Obs) -> bool {
+    a.status == b.status && (a.status != "Ok" || (a.detail == b.detail && vec_bits_eq(&a.data, &b.data)))
+}
+
+fn history_with<C: Context>(case: &HCase, rec: &mut Rec) -> CaseResult {
+    // the history, on one thread
+    let seen: Vec<Vec<Obs>> = isolated(|| {
+        let mut ctx = C::new();
+        let mut out = vec![];
+        for it in &case.items {
+            if it.new_ctx {
+                ctx = C::new();
+            }
+            for m in &it.lib {
+                ctx.register_resource(&m.name, &steps_text(&m.body));
+            }
+            let text = steps_text(&it.top);
+            out.push((0..it.repeat.max(1)).map(|_| observe(&mut ctx, &text)).collect());
+        }
+        out
+    })?;
+    // every step again, each on a thread and in a context that have seen nothing else
+    let mut failures_before = 0usize;
+    let mut first = 0usize;
+    for (i, it) in case.items.iter().enumerate() {
+        if it.new_ctx {
+            first = i;
+        }
+        let text = steps_text(&it.top);
+        let reference: Obs = isolated(|| {
+            let mut ctx = C::new();
+            for prev in &case.items[first..=i] {
+                for m in &prev.lib {
+                    ctx.register_resource(&m.name, &steps_text(&m.body));
+                }
+            }
+            observe(&mut ctx, &text)
+        })?;
+        if reference.status == "panic" {
+            vfail!("panic-instantiate-or-apply", "library:\n{}  '{text}' panics: {}", lib_text(&it.lib), reference.detail);
+        }
+        for (r, o) in seen[i].iter().enumerate() {
+            if !same_obs(o, &reference) {
+                let before: String = case.items[..i]
+                    .iter()
+                    .zip(&seen)
+                    .map(|(p, os)| format!("    {}'{}' x{} -> {}\n", if p.new_ctx { "(new context) " } else { "" }, steps_text(&p.top), os.len(), os[0].status))
+                    .collect();
+                vfail!(
+                    "instantiation-depends-on-history",
+                    "after these instantiations on the same thread:\n{before}  (repetition {r}) library:\n{}  '{text}' -> {} ({})\n  but alone, in a new context on a new thread -> {} ({})",
+                    lib_text(&it.lib), o.status, o.detail, reference.status, reference.detail
+                );
+            }
+        }
+        if reference.status == "Ok" {
+            rec.class("step=ok");
+            if failures_before > 0 {
+                rec.count("valid-after-failures", 1);
+                rec.metric("failed-instantiations-before-a-valid-one", failures_before as f64);
+            }
+        } else {
+            let kind = reference.detail.split('(').next().unwrap_or("?").to_string();
+            rec.class(&format!("step=error:{kind}"));
+            failures_before += seen[i].len();
+        }
+    }
+    rec.class(&format!("ctx={}", case.ctx));
+    rec.metric("history-length", case.items.len() as f64);
+    let valid_after = case.items.iter().zip(&seen).scan(false, |failed, (_, os)| {
+        let ok = os[0].status == "Ok";
+        let r = ok && *failed;
+        *failed |= !ok;
+        Some(r)
+    }).any(|b| b);
+    if valid_after {
+        rec.nontrivial(&case.items.iter().map(|it| steps_text(&it.top)).collect::<Vec<_>>());
+    }
+    Ok(())
+}
+
+fn check_history(case: &HCase, rec: &mut Rec) -> CaseResult {
+    match case.ctx {
+        0 => history_with::<Minimal>(case, rec),
+        1 => history_with::<Plain>(case, rec),
+        _ => history_with::<GridCtx>(case, rec),
+    }
+}
+
+/// invocations that fail in or just below the top frame: missing argument, bad value, unknown
+/// macro, unknown operator (alone or as a pipeline step), plus a valid one
+fn faulty_item(k: u16, repeat: u8, new_ctx: bool) -> HItem {
+    let st = |op: &str, args: Vec<Arg>| Step { op: op.into(), args, inv: InvPos::No };
+    let lit = |k: &str, v: &str| Arg { key: k.into(), val: Val::Lit(v.into()) };
+    let lib = vec![
+        Macro { name: "m:shift".into(), body: vec![st("helmert", vec![Arg { key: "x".into(), val: Val::Ref("amount".into()) }])] },
+        Macro { name: "m:twice".into(), body: vec![st("m:shift", vec![Arg { key: "amount".into(), val: Val::Ref("by".into()) }]), st("addone", vec![]), st("m:shift", vec![Arg { key: "amount".into(), val: Val::Ref("by".into()) }])] },
+    ];
+    let top = match k % 8 {
+        0 => vec![st("m:shift", vec![])],
+        1 => vec![st("m:shift", vec![lit("amount", "abc")])],
+        2 => vec![st("m:nope", vec![lit("amount", "1")])],
+        3 => vec![st("nosuchop", vec![])],
+        4 => vec![st("m:shift", vec![lit("amount", "1")]), st("nosuchop", vec![])],
+        5 => vec![st("addone", vec![]), st("m:twice", vec![])],
+        6 => vec![st("m:twice", vec![lit("by", "2")])],
+        _ => vec![st("m:shift", vec![lit("amount", "3")])],
+    };
+    HItem { new_ctx, lib, top, repeat }
+}
+
+fn history_case() -> impl Strategy<Value = HCase> {
+    let item = prop_oneof![
+        4 => raw_graph().prop_map(|r| { let g = build_graph_with(&r, 600); (g.lib, g.top) }),
+        1 => any::<u16>().prop_map(|k| { let g = cycle_case(pick(k, CYCLE_N)); (g.lib, g.top) }),
+        3 => any::<u16>().prop_map(|k| { let f = faulty_item(k, 1, false); (f.lib, f.top) }),
+        3 => raw_case(6).prop_map(|r| { let c = build_case(&r, Mode::Safe); (c.lib, c.top) }),
+        3 => any::<u16>().prop_map(|k| { let c = chain_case(pick(k, CHAIN_N)); (c.lib, c.top) }),
+    ];
+    (0u8..3, prop::collection::vec((item, 1u8..=3, prop::bool::weighted(0.15)), 2..=9)).prop_map(|(ctx, v)| HCase {
+        ctx,
+        items: v.into_iter().map(|((lib, top), repeat, new_ctx)| HItem { new_ctx, lib, top, repeat }).collect(),
+    })
+}
+
 /// Pure cycles of every length 1..8 x body kind x position of the back edge x context
 const CYCLE_N: usize = 8 * 4 * 3 * 3;
 fn cycle_case(i: usize) -> GCase {
@@ -1722,6 +1908,7 @@ fn main() {
     run.assume("the context default ellps=GRS80 counts as a caller-provided value (RawParameters.globals: 'caller-provided arguments and context defaults visible to the body')");
     run.assume("an unresolvable `$n` is required to be an error only when an operator actually looks the key up; unresolvable values that are ignored, or that meet a default form, are generated but not judged (excluded_unspecified)");
     run.assume("equivalence is asserted only while the nesting level stays <= 50 (half the recursion breaker); deeper chains: Ok or Err, no panic, no abort, no hang");
+    run.assume("sections other than 'histories' compare two instantiations made on the same (reused) worker thread, so state the library keeps per thread affects both sides alike there; dependence on earlier instantiations is examined by 'histories', where every history and every reference runs on a freshly spawned thread");
     run.assume("modifiers other than inv (omit_fwd, omit_inv) and stack operators are not used in macro bodies or invocations (C03, C12); `inv=true` spelling is not generated");
 
     run.enumerate(
@@ -1771,6 +1958,15 @@ fn main() {
             1 => any::<u16>().prop_map(|k| cycle_case(pick(k, CYCLE_N))),
         ],
         check_graph,
+    );
+
+    let n = run.scale(800, 60_000);
+    run.section(
+        "histories",
+        "sequences of 2..9 instantiations (each 1..3 times) on ONE freshly spawned thread, in one context or switching to brand-new ones: refused cyclic / broken graphs, invocations failing by a missing argument, bad value, unknown macro or unknown operator, valid libraries of section 'equivalence' (depth 0..6) and chains of depth 0..60; every step must give exactly what it gives alone in a new context on a new thread (Ok/Err, counts, bit-identical results both directions); non-trivial = a step that instantiates follows at least one that was refused",
+        n,
+        history_case,
+        check_history,
     );
 
     run.enumerate(
